@@ -213,8 +213,11 @@ def outfile(run, p):
     loop = None
     pre = None
     for i, s in enumerate(f.node.body):
-        if isinstance(s, ast.For) and any(isinstance(x, ast.Call) and isinstance(x.func, ast.Name) and x.func.id == 'verify'
-                                          for x in ast.walk(s)):
+        # the loop in which verifiers run: it calls the looked-up verifier itself, or hands the verifiers table to a helper
+        if isinstance(s, ast.For) and loop is None and any(
+                isinstance(x, ast.Call) and ((isinstance(x.func, ast.Name) and x.func.id == 'verify') or norm(x.func) == 'verifiers.get' or
+                                             any(isinstance(a, ast.Name) and a.id == 'verifiers' for a in list(x.args) + [k.value for k in x.keywords]))
+                for x in ast.walk(s)):
             loop = (i, s)
         if isinstance(s, ast.If) and 'detect_outpath' in names_in(s.test) and loop is None:
             pre = (i, s)
